@@ -10,6 +10,12 @@
 //	      node.NewObjectMethod on a fresh instance
 //	{"k":"generic","t":"int8","v":V}          utils.ConvertFromIndex[T](ctx, 0)
 //	{"k":"f32","bits":[...]}                  oracle: float64 -> float32 -> float64 of each value
+//	{"k":"conc","mode":"go"|"gomethod"|"spawn"|"spawnmethod","workers":W,"iters":N}
+//	      CONCURRENT callers of ONE registered function (or one method of a registered struct): worker w
+//	      calls triple(n, "s"+n, n+0.5) for n = w*1000000+i; the Go side checks that the three arguments of
+//	      every call belong to one caller.  go/gomethod: W goroutines through node.NewCallExpression /
+//	      node.NewObjectMethod, each with its own context; spawn/spawnmethod: a script that spawns W
+//	      coroutines (vrun.RunStringSpawn).  Answer: {"out":"conc","calls":..,"want":..,"bad":..,"first":..,"failed":..}
 //
 // V (script value) = {"k":"null"} | {"k":"bool","b":..} | {"k":"int","i":".."} | {"k":"float","bits":".."}
 //
@@ -28,6 +34,9 @@ import (
 	"reflect"
 	"strconv"
 	"strings"
+	"sync"
+	"sync/atomic"
+	"time"
 	"unicode/utf8"
 
 	"verif/harness/vrun"
@@ -60,18 +69,21 @@ type Got struct {
 	P    P      `json:"p"`
 }
 type Case struct {
-	Lits   []string `json:"lits"`   // sfunc: argument literals as script source text
-	Expect string   `json:"expect"` // sfunc: literal the result is compared with by ===
-	K      string   `json:"k"`
-	Params []string `json:"params"`
-	Ret    string   `json:"ret"`
-	Ret2   string   `json:"ret2"` // optional second result kind ("error" = a non-nil error, others = zero value)
-	RetV   *P       `json:"retv"`
-	Args   []V      `json:"args"`
-	M      string   `json:"m"`
-	T      string   `json:"t"`
-	Val    *V       `json:"v"`
-	Bits   []string `json:"bits"`
+	Lits    []string `json:"lits"`   // sfunc: argument literals as script source text
+	Expect  string   `json:"expect"` // sfunc: literal the result is compared with by ===
+	K       string   `json:"k"`
+	Params  []string `json:"params"`
+	Ret     string   `json:"ret"`
+	Ret2    string   `json:"ret2"` // optional second result kind ("error" = a non-nil error, others = zero value)
+	RetV    *P       `json:"retv"`
+	Args    []V      `json:"args"`
+	M       string   `json:"m"`
+	T       string   `json:"t"`
+	Val     *V       `json:"v"`
+	Bits    []string `json:"bits"`
+	Mode    string   `json:"mode"`
+	Workers int      `json:"workers"`
+	Iters   int      `json:"iters"`
 }
 type Oracle struct {
 	PF  [][2]string `json:"pf"`
@@ -86,6 +98,12 @@ type Obs struct {
 	GV  *Got    `json:"gv,omitempty"`
 	Msg string  `json:"msg,omitempty"`
 	Orc *Oracle `json:"orc,omitempty"`
+	// conc
+	Calls  int64  `json:"calls,omitempty"`
+	Want   int64  `json:"want,omitempty"`
+	Bad    int64  `json:"bad,omitempty"`
+	Failed int64  `json:"failed,omitempty"`
+	First  string `json:"first,omitempty"`
 }
 
 var (
@@ -307,6 +325,114 @@ func (t *T) Mix(a int, b float64, c string) string {
 }
 func (t *T) None() { rec() }
 
+// ---- concurrent callers
+var (
+	cCalls, cBad atomic.Int64
+	cFirst       atomic.Value
+)
+
+// the Go function every concurrent caller calls: its three arguments must come from ONE call
+func triple(a int, s string, f float64) bool {
+	cCalls.Add(1)
+	ok := s == "s"+strconv.Itoa(a) && f == float64(a)+0.5
+	if !ok && cBad.Add(1) == 1 {
+		cFirst.Store("triple(" + strconv.Itoa(a) + ", " + strconv.Quote(s) + ", " + strconv.FormatFloat(f, 'g', -1, 64) + ")")
+	}
+	return ok
+}
+
+type TC struct{}
+
+func (t *TC) Triple(a int, s string, f float64) bool { return triple(a, s, f) }
+
+func runConc(c Case) Obs {
+	cCalls.Store(0)
+	cBad.Store(0)
+	cFirst.Store("")
+	var failed atomic.Int64
+	want := int64(c.Workers) * int64(c.Iters)
+	switch c.Mode {
+	case "go", "gomethod":
+		stmt, ok := vm.GetFunc("c17triple")
+		if !ok {
+			return Obs{Out: "panic", Msg: "c17triple not registered"}
+		}
+		cls, ok := vm.GetClass("C17TC")
+		if !ok {
+			return Obs{Out: "panic", Msg: "C17TC not registered"}
+		}
+		var wg sync.WaitGroup
+		for w := 0; w < c.Workers; w++ {
+			wg.Add(1)
+			go func(w int) {
+				defer wg.Done()
+				defer func() {
+					if r := recover(); r != nil {
+						failed.Add(1)
+					}
+				}()
+				wctx := vm.CreateContext(nil)
+				var inst data.GetValue
+				if c.Mode == "gomethod" {
+					g, ctl := cls.(data.GetValue).GetValue(wctx)
+					if ctl != nil {
+						failed.Add(1)
+						return
+					}
+					inst = g
+				}
+				for i := 0; i < c.Iters; i++ {
+					n := w*1000000 + i
+					args := []data.GetValue{data.NewIntValue(n), data.NewStringValue("s" + strconv.Itoa(n)), data.NewFloatValue(float64(n) + 0.5)}
+					var g data.GetValue
+					var ctl data.Control
+					if c.Mode == "go" {
+						g, ctl = node.NewCallExpression(from, "c17triple", args, stmt).GetValue(wctx)
+					} else {
+						g, ctl = node.NewObjectMethod(from, inst, "Triple", args).GetValue(wctx)
+					}
+					if b, ok := g.(*data.BoolValue); ctl != nil || !ok || !b.Value {
+						failed.Add(1)
+					}
+				}
+			}(w)
+		}
+		wg.Wait()
+	case "spawn", "spawnmethod":
+		var wg sync.WaitGroup
+		wg.Add(c.Workers)
+		call := "c17triple($n, \"s\" . $n, $n + 0.5)"
+		pre := ""
+		if c.Mode == "spawnmethod" {
+			call = "$t->Triple($n, \"s\" . $n, $n + 0.5)"
+			pre = "$t = new C17TC();\n"
+		}
+		src := "for ($w = 0; $w < " + strconv.Itoa(c.Workers) + "; $w++) {\n  $base = $w * 1000000;\n  spawn(function() use ($base) {\n    " + pre +
+			"    for ($i = 0; $i < " + strconv.Itoa(c.Iters) + "; $i++) {\n      $n = $base + $i;\n      if (" + call + " !== true) { c17fail(); }\n    }\n    c17done();\n  });\n}\n"
+		res := vrun.RunStringSpawn(src, "c17conc.zy", func(v data.VM) {
+			rv := v.(*runtime.VM)
+			rv.RegisterFunction("c17triple", triple)
+			rv.RegisterFunction("c17done", func() { wg.Done() })
+			rv.RegisterFunction("c17fail", func() { failed.Add(1) })
+			rv.RegisterReflectClass("C17TC", &TC{})
+		})
+		if res.Outcome != "ok" {
+			return Obs{Out: "panic", Msg: "spawn script: " + res.Outcome + " " + res.Detail}
+		}
+		fin := make(chan struct{})
+		go func() { wg.Wait(); close(fin) }()
+		select {
+		case <-fin:
+		case <-time.After(120 * time.Second):
+			return Obs{Out: "panic", Msg: "spawned workers did not finish", Calls: cCalls.Load(), Want: want}
+		}
+	default:
+		return Obs{Out: "panic", Msg: "bad conc mode"}
+	}
+	first, _ := cFirst.Load().(string)
+	return Obs{Out: "conc", Calls: cCalls.Load(), Want: want, Bad: cBad.Load(), Failed: failed.Load(), First: first}
+}
+
 // c17_ok: native function receiving the result of `f(...) === literal`
 var (
 	okSeen, okVal bool
@@ -487,6 +613,8 @@ func runCase(c Case) (o Obs) {
 		res.Got = tlog
 		res.Orc = oracleFor(c.Args)
 		return res
+	case "conc":
+		return runConc(c)
 	case "generic":
 		vars := []data.Variable{node.NewVariable(nil, "a", 0, nil)}
 		fc := ctx.CreateContext(vars)
@@ -518,6 +646,14 @@ func main() {
 	}
 	if ctl := vm.RegisterReflectClass("C17T", &T{}); ctl != nil {
 		fmt.Fprintln(os.Stderr, "register class:", ctl.AsString())
+		os.Exit(2)
+	}
+	if ctl := vm.RegisterFunction("c17triple", triple); ctl != nil {
+		fmt.Fprintln(os.Stderr, "register c17triple:", ctl.AsString())
+		os.Exit(2)
+	}
+	if ctl := vm.RegisterReflectClass("C17TC", &TC{}); ctl != nil {
+		fmt.Fprintln(os.Stderr, "register class C17TC:", ctl.AsString())
 		os.Exit(2)
 	}
 	w := json.NewEncoder(os.Stdout)
